@@ -171,7 +171,7 @@ def handleA32Patch (args obs : List String) : Verdict :=
                        | [] => ""
                        | r :: _ => " key=a32.scratch=r" ++ toString r
           let ag := p.addr == addr && p.bytes == bs
-          Gen.withGen' (Gen.a32Patch src target addr bs) <|
+          Gen.withGen' (Gen.a32Patch src target addr bs (((kv rest "saved").bind parseBytes).getD (List.replicate 12 0))) <|
           { agree := ag, propOk := landed && frame && bad.isEmpty,
             branch := (if src % 2 == 1 then (if addr % 4 == 0 then "thumb0" else "thumb2") else "arm"),
             detail := (if ag then "" else "model=" ++ hex p.addr ++ ":" ++ hexBytes p.bytes) ++ key }
